@@ -211,6 +211,8 @@ class Canon:
                     return self.nf(args[1], depth + 1)
                 if is_numpy_callable(ref):
                     bn = base_name(ref)
+                    if bn in ("zeros", "zeros_like"):
+                        return NF.atom("<zeros>")  # an all-zero array of whatever (broadcastable) shape
                     if bn == "real" and args and self.depends_on_g(args[0]):
                         return self.nf(args[0], depth + 1)
                     if bn in ("negative",) and len(args) == 1:
